@@ -212,6 +212,7 @@ def manager_stage_attrs(cls):
         return _cache[key]
     A = ClassAst(cls)
     out = dict(_STAGE_DEFAULT)
+    found = {}
     for n in A._nodes('__init__'):
         if not (isinstance(n, ast.Assign) and isinstance(n.value, ast.Call)):
             continue
@@ -220,7 +221,12 @@ def manager_stage_attrs(cls):
             continue
         for kw in n.value.keywords:
             if kw.arg == 'max_size' and isinstance(kw.value, ast.Attribute) and kw.value.attr in _STAGE_OF_CFG:
-                out[_STAGE_OF_CFG[kw.value.attr]] = tgt[0]
+                found.setdefault(_STAGE_OF_CFG[kw.value.attr], []).append(tgt[0])
+    # only an unambiguous wiring is believed (each of the three queue sizes used by exactly one
+    # executor); otherwise the historical names stand (a mis-wired size is for C10 to judge)
+    if sorted(found) == ['io', 'req', 'sub'] and all(len(v) == 1 for v in found.values()) and \
+            len({v[0] for v in found.values()}) == 3:
+        out = {k: v[0] for k, v in found.items()}
     _cache[key] = out
     return out
 
